@@ -361,6 +361,52 @@ func CheckC15(e *fw.Env, l *Lab) {
 		}
 	}
 
+	// 2c. every list of 1..4 action identifiers over the supported ones: accepted iff the
+	// identifiers are distinct (wherever in the list the repeat sits)
+	if e.Shard == 0 {
+		rt := l.Templates()[0].Spec.Route
+		fee := []spec.Fee{{Recipient: FeeRecipients(w)[0], IsBPS: true, BPS: 10}}
+		var lists [][]string
+		var gen func(cur []string)
+		gen = func(cur []string) {
+			if len(cur) > 0 {
+				lists = append(lists, append([]string(nil), cur...))
+			}
+			if len(cur) == 4 {
+				return
+			}
+			for _, a := range []string{"fee", "swap"} {
+				gen(append(cur, a))
+			}
+		}
+		gen(nil)
+		for _, order := range lists {
+			var fees [][]spec.Fee
+			seen, repeat := map[string]bool{}, false
+			for _, a := range order {
+				if a == "fee" {
+					fees = append(fees, fee)
+				}
+				if seen[a] {
+					repeat = true
+				}
+				seen[a] = true
+			}
+			memo := actionsMemo(order, fees, rt)
+			got := parseMemo(p1, w, memo)
+			e.Res.Eval()
+			switch {
+			case repeat && got.OK:
+				e.Res.Violate(fw.Violation{Property: "C15", Kind: "ill-formed-memo-accepted", Tags: map[string]string{"class": "repeated-action-id"},
+					Detail: fmt.Sprintf("pre-actions %v repeat an identifier and the payload is accepted", order), Witness: map[string]any{"memo": memo}})
+			case !repeat && !got.OK:
+				e.Res.Violate(fw.Violation{Property: "C15", Kind: "well-formed-memo-refused-or-different", Tags: map[string]string{"class": "distinct-action-ids"},
+					Detail: fmt.Sprintf("pre-actions %v are distinct and the payload is refused: %s", order, got.Err), Witness: map[string]any{"memo": memo}})
+			}
+			e.Res.Sig("action-id-list|%s|accepted=%v", strings.Join(order, ","), got.OK)
+		}
+	}
+
 	// 3. purity under concurrency: 8 goroutines parse the same corpus, results must agree.
 	var corpus []string
 	for _, tpl := range l.Templates() {
